@@ -163,7 +163,11 @@ def corpus_text(src):
     fmt = src["fmt"]
     # xyz: a comment line that is itself an integer turns "count line deleted" into another well-formed file
     mols = [chem.build_molecule(dict(r, name=("m_" + r["name"]) if fmt == "xyz" else r["name"]), ml.Molecule) for r in src["mols"]]
-    return fmt, "".join(getattr(m, "dumps_" + fmt)() for m in mols)
+    texts = [getattr(m, "dumps_" + fmt)() for m in mols]
+    if fmt == "mol2" and src.get("substructure"):
+        # layout of OpenBabel / Chimera files: every molecule ends with a record block molli does not implement
+        texts = [t + "@<TRIPOS>SUBSTRUCTURE\n     1 UNL1        1 TEMP              0 ****  ****    0 ROOT\n" for t in texts]
+    return fmt, "".join(texts)
 
 
 def _orig(fmt, text):
@@ -360,7 +364,7 @@ def _srcs(tier):
     molr = chem.molecule_recipe(max_atoms=7, max_bonds=9, attribs=False, mol2_safe=True, min_atoms=1).map(_clean)
     gen = st.lists(molr, min_size=2, max_size=5).map(_different_counts).filter(lambda l: len(l) >= 2)
     return st.one_of(
-        st.fixed_dictionaries({"fmt": st.just("mol2"), "mols": gen}),
+        st.fixed_dictionaries({"fmt": st.just("mol2"), "mols": gen, "substructure": st.booleans()}),
         st.fixed_dictionaries({"fmt": st.just("xyz"), "mols": gen}),
         st.sampled_from([{"fmt": "mol2", "file": f} for f in MOL2_FILES[:4]] + [{"fmt": "xyz", "file": f} for f in XYZ_FILES]),
     )
@@ -439,7 +443,7 @@ def classify(recipe):
     if "runs" in recipe:
         return False, ["fuzz_campaign", "corpus=" + ("seeded" if recipe.get("seeded_corpus") else "empty")]
     s = recipe["src"]
-    return False, ["fmt=" + s["fmt"], "corpus=" + ("bundled" if "file" in s else "generated")]
+    return False, ["fmt=" + s["fmt"], "corpus=" + ("bundled" if "file" in s else "generated")] + (["with_unimplemented_record_blocks"] if s.get("substructure") else [])
 
 
 LEGS = [
